@@ -1,145 +1,185 @@
-"""C01 — a commit's AI attribution is exactly the lines the agents wrote (system-level part)."""
+"""C01 — a commit's AI attribution is exactly the lines the agents wrote.
+
+Layers: (1) diff text protocol (vlib/c01fmt.py, Properties/C01_fmt.v, if present),
+        (2) working-log reader (Model/WorkLog.v; tie = vlib/worklog.py on real .git/ai states),
+        (3) system-level oracle: generated edit histories on real repositories with ground truth
+            by construction (pairwise-distinct line texts), note and blame compared exactly.
+"""
+import importlib
 import os
 import shutil
 from . import common as C
+from . import worklog
 from .gitsim import Sim, Truth, session_hash
 
-GEN_FILES = []
-DRIVERS = []
-THEOREMS = []
-TRUSTED_BASE = []
-ASSUMPTIONS = []
-CLAIM = None
+try:
+    fmt = importlib.import_module("vlib.c01fmt")
+    if not getattr(fmt, "INTEGRATED", False):     # set by the lead once the slice is finished
+        fmt = None
+except Exception:  # the diff-protocol slice is optional
+    fmt = None
 
-TOOL = "toolx"
+GEN_FILES = ["GenWorkLog"] + (fmt.GEN_FILES if fmt else [])
+DRIVERS = ["worklog"] + (fmt.DRIVERS if fmt else [])
+PROPERTY_FILES = ["C01"] + (["C01_fmt"] if fmt else [])
+THEOREMS = ["C01_latest_wins", "C01_stale_refuted", "C01_nonvacuous"] + (fmt.THEOREMS if fmt else [])
+CLAIM = {
+    "text": "Partial proof. Theorems (Coq 8.16.1, closed): (a) the working-log reader returns, for every file, what the "
+            "newest data-carrying checkpoint entry of that file says (C01_latest_wins, for all logs; false for the code "
+            "before fix 739e3592: C01_stale_refuted) and (b) the diff-protocol parser recovers exactly the added lines of "
+            "every well-formed `git diff -U0` document outside the known class (C01_fmt_*, when that slice is present). "
+            "The models are tied to the code by the translator (GenWorkLog reads the two decisions from the source) and by "
+            "calling the real functions in-process on the .git/ai state of every generated history. The end-to-end statement "
+            "(note and blame equal the ground truth of who last substantively changed each added line) is decided by the "
+            "oracle over generated histories; it is not a theorem because it runs through git and the diff heuristics "
+            "of the tracker (C16).",
+    "design_ref": "DESIGN.md §4 C01",
+    "note": "Trusted: Coq kernel, translator, extraction+driver, harness, gitsim engine (ground truth by construction: "
+            "pairwise distinct line texts). Environment: git diff/blame, imara-diff. Checkpoints are spaced >= 2 ms.",
+    "technique": "Coq proof of the working-log reader + diff protocol; differential correspondence; generated-history oracle",
+}
+TRUSTED_BASE = [
+    "Coq 8.16.1 kernel; theorems closed under the global context",
+    "tools/gen/GenWorkLog.py (reads `attributions.remove(&entry.file)` and the INITIAL empty-write branch from the source)",
+    "extraction (ExtrOcamlBasic only) + coq/Extract/d_worklog.ml; harness/src/p_worklog.rs",
+    "vlib/gitsim.py (scenario engine, independent note parser, ground truth by construction)",
+    "modelled not verified: git (diff/blame/notes), the tracker's char->line projection (fact we_from_chars, computed by the "
+    "real attributions_to_line_attributions), serde",
+]
+ASSUMPTIONS = [
+    "agent integrations take a human checkpoint before each agent edit and an AI checkpoint after it (the documented protocol)",
+    "line texts in generated files are pairwise distinct, so git's and imara's diffs are unambiguous",
+]
+
+from . import hist
+from .hist import TOOL, note_as_sets
 
 
-def expected_note(truth, parent_texts):
-    """{path: {hash: set(lines)}} for lines whose author is a session and whose text is new w.r.t. parent."""
-    exp = {}
-    for p, ls in truth.files.items():
-        old = parent_texts.get(p, set())
-        for i, (t, a) in enumerate(ls, 1):
-            if a != "H" and t not in old:
-                exp.setdefault(p, {}).setdefault(session_hash(TOOL, a), set()).add(i)
-    return exp
-
-
-def note_as_sets(note):
-    if note is None:
-        return {}
-    out = {}
-    for p, hs in note["files"].items():
-        for h, ls in hs.items():
-            if ls:
-                out.setdefault(p, {}).setdefault(h, set()).update(ls)
-    return out
+def _jsonable(d):
+    return hist.jsonable(d)
 
 
 def scenario(args):
     base, seed, idx, opts = args
     r = C.Rng(seed).fork(f"c01-{idx}")
+    script = hist.gen_script(r)
     sim = Sim(base, f"s{idx}")
-    tr = Truth()
-    steps = []
+    ties, tie_fail = [], []
+
+    def before_commit(sim_, rnd):
+        if opts.get("tie", True):
+            ok, detail, st = worklog.va_tie(sim_.repo, sim_.head())
+            ties.append(ok)
+            if not ok:
+                tie_fail.append({"what": "TIE working-log reader model differs from from_just_working_log", **detail})
+
     try:
-        nfiles = r.range(1, 3)
-        names = r.shuffle(["f.txt", "src/a.rs", "dir with space/b.py", "c-é.txt", "-dash.md"])[:nfiles]
-        for n in names:
-            tr.new_file(r, n, r.range(3, 9), "H")
-            if r.chance(1, 6):
-                tr.final_nl[n] = False
-            if r.chance(1, 8):
-                tr.eol[n] = "\r\n"
-        sim.init({n: tr.text(n) for n in names})
-        failures = []
-        for rnd in range(r.range(1, 2)):
-            parent_texts = {p: set(t for t, _ in ls) for p, ls in tr.files.items()}
-            for e in range(r.range(1, opts.get("max_edits", 7))):
-                actor = r.weighted([(3, "H"), (4, "s1"), (3, "s2")])
-                if r.chance(1, 7):
-                    path = f"new{tr.counter}.txt"
-                    n = r.range(1, 4)
-                    if actor != "H":
-                        sim.checkpoint_human([path])
-                    tr.new_file(r, path, n, actor)
-                    op = ("new", path, n)
-                else:
-                    path = r.pick(sorted(tr.files))
-                    ls = tr.files[path]
-                    kind = r.weighted([(4, "ins"), (2, "del"), (3, "rep"), (2, "mod"), (1, "indent")])
-                    if actor != "H":
-                        sim.checkpoint_human([path])
-                    if kind == "ins" or not ls:
-                        pos, n = r.range(0, len(ls)), r.range(1, 3)
-                        tr.insert(r, path, pos, n, actor)
-                        op = ("ins", path, pos, n)
-                    elif kind == "del":
-                        pos = r.below(len(ls))
-                        n = r.range(1, min(2, len(ls) - pos))
-                        tr.delete(path, pos, n)
-                        op = ("del", path, pos, n)
-                    elif kind == "rep":
-                        pos = r.below(len(ls))
-                        n = r.range(1, min(2, len(ls) - pos))
-                        m = r.range(1, 3)
-                        tr.replace(r, path, pos, n, m, actor)
-                        op = ("rep", path, pos, n, m)
-                    elif kind == "mod":
-                        pos = r.below(len(ls))
-                        tr.modify_inline(r, path, pos, actor)
-                        op = ("mod", path, pos)
-                    else:
-                        # whitespace-only re-indent of lines that are new since the last commit
-                        cand = [k for k, (t, _) in enumerate(ls) if t not in parent_texts.get(path, set())]
-                        if not cand:
-                            continue
-                        pos = r.pick(cand)
-                        tr.reindent(path, pos, 1)
-                        op = ("indent", path, pos)
-                sim.write(path, tr.text(path))
-                if actor != "H":
-                    sim.checkpoint_ai(actor, [path], tool=TOOL)
-                elif r.chance(1, 4):
-                    sim.checkpoint_human([path])
-                steps.append((actor,) + op)
-            sim.realgit("add", "-A")
-            rc, out, err = sim.git("commit", "-q", "-m", f"round {rnd}")
-            if rc != 0:
-                # nothing to commit (edits cancelled out) is fine
-                continue
-            head = sim.head()
-            exp = expected_note(tr, parent_texts)
-            got = note_as_sets(sim.note(head))
-            if got != exp:
-                failures.append({"what": "note differs from ground truth", "commit_round": rnd,
-                                 "expected": {p: {h: sorted(s) for h, s in d.items()} for p, d in exp.items()},
-                                 "got": {p: {h: sorted(s) for h, s in d.items()} for p, d in got.items()}})
-            for p in tr.files:
-                if not tr.files[p]:
-                    continue      # empty file: git-ai blame refuses it (recorded under C09)
-                bl = sim.blame(p)
-                expb = {i: session_hash(TOOL, a) for i, (t, a) in enumerate(tr.files[p], 1) if a != "H"}
-                if bl is None:
-                    failures.append({"what": "blame failed", "path": p, "err": sim.last_err})
-                elif bl != expb:
-                    failures.append({"what": "blame differs from ground truth", "path": p, "commit_round": rnd,
-                                     "expected": expb, "got": bl})
-        return {"idx": idx, "steps": steps, "failures": failures, "files": tr.snapshot(),
-                "log": sim.log if failures else None}
+        obs = hist.exec_script(sim, script, r=r.fork("exec"), before_commit=before_commit)
+        fails, known = hist.compare_with_truth(script, obs)
+        failures = tie_fail + fails
+        return {"idx": idx, "known": known, "steps": hist.descr(script), "failures": failures, "kinds": script["kinds"], "ties": ties,
+                "files": script["final"] if failures else None, "log": sim.log if failures else None}
+    finally:
+        shutil.rmtree(sim.base, ignore_errors=True)
+
+
+def k1_witness(base):
+    """known finding C01-K1: an added line whose text begins with '++ ' is rendered '+++ ...' by git diff
+    and taken for a file header; a later hunk of the same file loses its attribution."""
+    sim = Sim(base, "k1")
+    try:
+        sim.init({"f.txt": "l1\nl2\nl3\nl4\nl5\n"})
+        sim.checkpoint_human(["f.txt"])
+        sim.write("f.txt", "l1\n++ weird\nl2\nl3\nl4\nai2\nl5\n")
+        sim.checkpoint_ai("s1", ["f.txt"], tool=TOOL)
+        sim.realgit("add", "-A")
+        sim.git("commit", "-q", "-m", "k1")
+        got = note_as_sets(sim.note(sim.head()))
+        want = {"f.txt": {session_hash(TOOL, "s1"): {2, 6}}}
+        return got != want, _jsonable(got)
+    finally:
+        shutil.rmtree(sim.base, ignore_errors=True)
+
+
+def k4_witness(base):
+    """known finding C01-K4: AI lines committed; a later commit re-adds one of them with a whitespace-only
+    change (here: the file has no final newline and the last line is deleted, so the AI line above loses its
+    newline) — the line is blamed on the later commit, whose note does not list it."""
+    sim = Sim(base, "k4")
+    try:
+        sim.init({"a.rs": "L1\nL2\nL3"})
+        sim.checkpoint_human(["a.rs"])
+        sim.write("a.rs", "L1\nL2\nA1\nA2\nL3")
+        sim.checkpoint_ai("s1", ["a.rs"], tool=TOOL)
+        sim.realgit("add", "-A")
+        sim.git("commit", "-q", "-m", "r0")
+        sim.write("a.rs", "L1\nL2\nA1\nA2")
+        sim.realgit("add", "-A")
+        sim.git("commit", "-q", "-m", "r1")
+        bl = sim.blame("a.rs")
+        h = session_hash(TOOL, "s1")
+        return bl != {3: h, 4: h}, bl
     finally:
         shutil.rmtree(sim.base, ignore_errors=True)
 
 
 def run(ctx):
-    n = 60 if ctx.tier == "quick" else 2000
-    items = [(ctx.scratch, ctx.seed, i, {}) for i in range(n)]
+    n = 200 if ctx.tier == "quick" else 4000
+    obligations, violations, known = [], [], []
+    items = [(ctx.scratch, ctx.seed, i, {"tie": ctx.model_ok}) for i in range(n)]
     res = C.parallel_map(scenario, items)
-    violations = []
+    kinds, n_tie, tie_bad, distinct = {}, 0, [], set()
+    k2_seen = []
     for r_ in res:
         if "error" in r_:
-            violations.append(("engine error", r_))
-        elif r_["failures"]:
-            violations.append((r_["failures"][0]["what"] + " " + str(r_["steps"])[:200], r_))
-    return {"obligations": [], "violations": violations, "known_seen": [], "searched": "",
-            "coverage": {"evaluations": len(res), "distinct_nontrivial": len(res), "rule": "", "samples": res[:2]}}
+            violations.append(("engine error: " + r_["error"][-300:], r_))
+            continue
+        for k, v in r_["kinds"].items():
+            kinds[k] = kinds.get(k, 0) + v
+        n_tie += len(r_["ties"])
+        if "C01-K4" in r_.get("known", []):
+            k2_seen.append(r_["steps"])
+        if any(s[0] != "H" for s in r_["steps"]):
+            distinct.add(str(r_["steps"]))
+        for f in r_["failures"]:
+            if f["what"].startswith("TIE"):
+                tie_bad.append(f)
+            else:
+                violations.append((f["what"] + " after " + str(r_["steps"])[:300],
+                                   {"kind": "history", "steps": r_["steps"], "failure": f, "files": r_["files"],
+                                    "commands": r_["log"]}))
+    obligations.append(("tie:correspondence Model/WorkLog.v vs from_just_working_log on real working logs",
+                        not tie_bad and ctx.model_ok,
+                        (tie_bad[0]["model"][:200] + " vs " + str(tie_bad[0]["impl"])[:200]) if tie_bad else
+                        ("" if ctx.model_ok else "model did not build")))
+    still, got = k1_witness(ctx.scratch)
+    if still:
+        known.append("C01-K1 added line beginning with '++ ' is taken for a diff file header (later hunk of the file loses attribution)")
+    still4, _ = k4_witness(ctx.scratch)
+    if still4 or k2_seen:
+        known.append("C01-K4 an AI line committed earlier is re-added by a later commit with a whitespace-only change "
+                     "(end-of-file newline, re-indent) and becomes human")
+    cov = {
+        "known_class_hits": {"C01-K4": len(k2_seen)},
+        "evaluations": len(res) + 1,
+        "distinct_nontrivial": len(distinct),
+        "rule": "generated histories: 1-3 files (odd names, CRLF, missing final newline), 1-2 commit rounds of 1-7 edits by two AI "
+                "sessions and a human (insert/delete/replace/intra-line modify/re-indent/diff-looking lines), pairwise-distinct "
+                "line texts; non-trivial = at least one AI edit; distinct by edit script",
+        "samples": [{"steps": r_["steps"], "failures": len(r_["failures"])} for r_ in res[:3] if "steps" in r_],
+        "input_distribution": kinds,
+        "worklog_ties_checked": n_tie,
+    }
+    out = {"obligations": obligations, "violations": violations, "known_seen": known,
+           "searched": f"{len(res)} generated histories (note + blame vs ground truth), {n_tie} working-log states",
+           "coverage": cov}
+    if fmt:
+        sub = fmt.run_fmt(ctx)
+        out["obligations"] += sub.get("obligations", [])
+        out["violations"] += sub.get("violations", [])
+        out["known_seen"] += [k for k in sub.get("known_seen", []) if k not in out["known_seen"]]
+        cov["evaluations"] += sub.get("coverage", {}).get("evaluations", 0)
+        cov["distinct_nontrivial"] += sub.get("coverage", {}).get("distinct_nontrivial", 0)
+        cov["fmt"] = sub.get("coverage", {})
+        out["searched"] += "; " + sub.get("searched", "")
+    return out
